@@ -114,7 +114,7 @@ class AsgiHttpPeer:
     def __init__(self, loop, ctx, tape, req, script=None, *, zerocopy=False, raise_after_disconnect=False,
                  disconnect_time=None, disconnect_after_sends=None, send_raise_at=None,
                  send_lats=SEND_LATS, recv_lat_extra=(0.0,), extensions=None, surface="asgi",
-                 complete_disconnects=True, recv_raises_after_script=False):
+                 complete_disconnects=True, recv_raises_after_script=False, alias_equal_events=False):
         self.loop = loop
         self.ctx = ctx
         self.tape = tape
@@ -126,6 +126,8 @@ class AsgiHttpPeer:
         if script is None:
             script = [{"type": "http.request", "body": req.body, "more_body": False, "delay": 0.0}]
         self.script = list(script)
+        self.alias_equal_events = alias_equal_events   # equal events are ONE dict object (the server's), handed over again
+        self._event_objects = {}
         self.pos = 0
         self._arrival = []
         t = 0.0
@@ -255,6 +257,9 @@ class AsgiHttpPeer:
             msg["body"] = bytearray(m.get("body", b"")) if m.get("as_bytearray") else m.get("body", b"")
         if "more_body" not in omit:
             msg["more_body"] = m.get("more_body", False)
+        if self.alias_equal_events and not m.get("as_bytearray"):
+            key = (msg.get("body"), msg.get("more_body"), tuple(sorted(omit)))
+            msg = self._event_objects.setdefault(key, msg)
         return msg
 
     async def send(self, msg):
